@@ -47,7 +47,8 @@ for call in calls:
         results.append(['undefined', name])
         continue
     try:
-        results.append(['ok', repr(ns[name](*[eval(a) for a in args]))])
+        _v = ns[name](*[eval(a) for a in args])
+        results.append(['ok', repr(_v), [repr(_v), str(_v), format(_v)]])
     except BaseException as e:
         results.append(['raise', type(e).__name__])
 sys.stdout = real_out
